@@ -17,6 +17,16 @@
 //	      5. with Deep: every field/element/pointee reached through any
 //	         pointer, slice or map                                        ("deep")
 //	    Locals and parameters that are not captured are not shared and not hooked.
+//	(c) opaque shared objects ("opaque"): a USE -- method call on it, field access through it,
+//	    passing it to a call -- of a package-level variable (of the instrumented packages or of
+//	    any package they import), or of a value reached only through one, whose type is declared
+//	    outside the instrumented packages becomes `vrt.OV(x, site)` / `vrt.OP(&x, site)`: at run
+//	    time an access to the OBJECT, nothing for the types of vrt.ConcurrencySafe (documented
+//	    as safe for concurrent use), a WRITE for every other type. When the static type is
+//	    concrete and allow-listed no hook is emitted.
+//	(d) context cancellation: the statement `<-x.Done()` (x a context.Context) becomes
+//	    vrt.AwaitDone(x), a call of a context.CancelFunc value becomes vrt.Cancel(f): waiting
+//	    for a cancellation is a blocking scheduler operation instead of a channel receive.
 //
 // Granularity. Hooks are placed IN the expression, at the exact evaluation position:
 // a read of x becomes `*vrt.RP(&x, site)`, a write `*vrt.WP(&x, site) = v`, a map lookup
@@ -47,6 +57,8 @@ import (
 	"path/filepath"
 	"sort"
 	"strings"
+
+	"verif/sched/vrt"
 )
 
 // Target is a set of packages to instrument, resolved by `go list` run in Dir.
@@ -836,6 +848,108 @@ func (rw *rewriter) through(p ast.Expr) string {
 	return ""
 }
 
+// rootPkgVar reports whether e is a package-level variable (of any package) or a location /
+// value reached only through one by field selections, indexing and dereferences.
+func (rw *rewriter) rootPkgVar(e ast.Expr) bool {
+	switch x := e.(type) {
+	case *ast.ParenExpr:
+		return rw.rootPkgVar(x.X)
+	case *ast.Ident:
+		v, ok := rw.info.Uses[x].(*types.Var)
+		return ok && !v.IsField() && v.Pkg() != nil && v.Parent() == v.Pkg().Scope()
+	case *ast.SelectorExpr:
+		sel, ok := rw.info.Selections[x]
+		if !ok { // qualified identifier pkg.Var
+			v, isVar := rw.info.Uses[x.Sel].(*types.Var)
+			return isVar && v.Pkg() != nil && v.Parent() == v.Pkg().Scope()
+		}
+		return sel.Kind() == types.FieldVal && rw.rootPkgVar(x.X)
+	case *ast.IndexExpr:
+		switch under(rw.typeOf(x.X)).(type) {
+		case *types.Slice, *types.Array, *types.Pointer, *types.Map:
+			return rw.rootPkgVar(x.X)
+		}
+	case *ast.StarExpr:
+		return rw.rootPkgVar(x.X)
+	}
+	return false
+}
+
+// opaqueUse decides whether a use of e must be recorded as an access to an opaque shared object:
+// e is rooted at a package-level variable and its type is an interface (decided at run time on
+// the dynamic type) or a named type -- or a pointer to one -- declared outside the instrumented
+// packages that is not on the allow-list vrt.ConcurrencySafe.
+func (rw *rewriter) opaqueUse(e ast.Expr) bool {
+	if rw.cfg.NoAccessHooks || !rw.rootPkgVar(e) {
+		return false
+	}
+	t := rw.typeOf(e)
+	if t == nil {
+		return false
+	}
+	if _, isIface := under(t).(*types.Interface); isIface {
+		if _, isTP := t.(*types.TypeParam); isTP {
+			return false
+		}
+		return true
+	}
+	if p, ok := under(t).(*types.Pointer); ok {
+		if _, named := t.(*types.Named); !named {
+			t = p.Elem()
+		}
+	}
+	n, ok := t.(*types.Named)
+	if !ok || n.Obj() == nil || n.Obj().Pkg() == nil {
+		return false
+	}
+	switch under(n).(type) {
+	case *types.Struct, *types.Map, *types.Chan, *types.Pointer:
+	default:
+		return false // named numbers, strings, funcs, slices: values, no hidden shared state
+	}
+	path := n.Obj().Pkg().Path()
+	if path == rw.pkg.Path() || rw.targetSet[path] || vrt.InternalPkg(path) || strings.HasPrefix(path, rw.cfg.VrtImport) {
+		return false
+	}
+	if vrt.SafeReason(path, n.Obj().Name()) != "" {
+		rw.skip("uses of package-level values of allow-listed concurrency-safe types (no hook needed)")
+		return false
+	}
+	return true
+}
+
+// opaqueValue wraps the already rewritten value expression r (originally orig).
+func (rw *rewriter) opaqueValue(orig, r ast.Expr) ast.Expr {
+	rw.rep.Hooks++
+	rw.rep.ByCategory["opaque"]++
+	return rw.call("OV", r, rw.site(orig))
+}
+
+func (rw *rewriter) isNamed(t types.Type, pkgPath, name string) bool {
+	n, ok := t.(*types.Named)
+	return ok && n.Obj() != nil && n.Obj().Pkg() != nil && n.Obj().Pkg().Path() == pkgPath && n.Obj().Name() == name
+}
+
+// doneReceive matches `<-x.Done()` with x a context.Context and returns x.
+func (rw *rewriter) doneReceive(e ast.Expr) ast.Expr {
+	u, ok := unparen(e).(*ast.UnaryExpr)
+	if !ok || u.Op != token.ARROW {
+		return nil
+	}
+	c, ok := unparen(u.X).(*ast.CallExpr)
+	if !ok || len(c.Args) != 0 {
+		return nil
+	}
+	se, ok := c.Fun.(*ast.SelectorExpr)
+	if !ok || se.Sel.Name != "Done" {
+		return nil
+	}
+	if t := rw.typeOf(se.X); t != nil && rw.isNamed(t, "context", "Context") {
+		return se.X
+	}
+	return nil
+}
+
 func (rw *rewriter) isPkgSel(e ast.Expr, pkgPath, name string) bool {
 	se, ok := e.(*ast.SelectorExpr)
 	if !ok || se.Sel.Name != name {
@@ -958,7 +1072,14 @@ func (rw *rewriter) read(e ast.Expr) ast.Expr {
 				cat = rw.shared(x)
 			}
 			orig := rw.copyForSite(x)
+			opaque := isPtr(rw.typeOf(x.X)) && rw.opaqueUse(x.X)
+			origBase := rw.copyForSite(x.X)
 			loc := rw.path(x)
+			if opaque {
+				if se, ok := loc.(*ast.SelectorExpr); ok {
+					se.X = rw.opaqueValue(origBase, se.X)
+				}
+			}
 			if cat != "" && rw.addressable(x) {
 				return rw.hookPtr(orig, loc, false, cat)
 			}
@@ -972,10 +1093,21 @@ func (rw *rewriter) read(e ast.Expr) ast.Expr {
 					ptrMethod = isPtr(sig.Recv().Type())
 				}
 			}
+			opaque := rw.opaqueUse(x.X)
+			orig := rw.copyForSite(x.X)
 			if ptrMethod && !isPtr(recvT) {
+				addr := rw.addressable(x.X)
 				x.X = rw.path(x.X) // implicit &x: not an access
+				if opaque && addr {
+					rw.rep.Hooks++
+					rw.rep.ByCategory["opaque"]++
+					x.X = rw.call("OP", &ast.UnaryExpr{Op: token.AND, X: x.X}, rw.site(orig))
+				}
 			} else {
 				x.X = rw.read(x.X)
+				if opaque {
+					x.X = rw.opaqueValue(orig, x.X)
+				}
 			}
 			return x
 		}
@@ -1166,9 +1298,23 @@ func (rw *rewriter) callExpr(c *ast.CallExpr) ast.Expr {
 			return c
 		}
 	}
+	if t := rw.typeOf(c.Fun); t != nil && len(c.Args) == 0 && rw.isNamed(t, "context", "CancelFunc") {
+		// cancel() -> vrt.Cancel(cancel): a scheduling point and a release for the waiters
+		rw.rep.ByCategory["cancel-call"]++
+		return rw.call("Cancel", rw.read(c.Fun))
+	}
 	c.Fun = rw.read(c.Fun)
 	for i, a := range c.Args {
+		if c.Ellipsis.IsValid() && i == len(c.Args)-1 {
+			c.Args[i] = rw.read(a)
+			continue
+		}
+		opaque := rw.opaqueUse(a)
+		orig := rw.copyForSite(a)
 		c.Args[i] = rw.read(a)
+		if opaque {
+			c.Args[i] = rw.opaqueValue(orig, c.Args[i])
+		}
 	}
 	return c
 }
@@ -1261,6 +1407,11 @@ func (rw *rewriter) stmt(s ast.Stmt) ast.Stmt {
 	case nil:
 		return nil
 	case *ast.ExprStmt:
+		if ctx := rw.doneReceive(s.X); ctx != nil {
+			rw.rep.ByCategory["await-done"]++
+			s.X = rw.call("AwaitDone", rw.read(ctx))
+			return s
+		}
 		s.X = rw.read(s.X)
 	case *ast.AssignStmt:
 		for i, r := range s.Rhs {
@@ -1303,9 +1454,13 @@ func (rw *rewriter) stmt(s ast.Stmt) ast.Stmt {
 			return &ast.ExprStmt{X: rw.call("Go", fl)}
 		}
 		rw.skip("go statement with arguments: goroutine not under the scheduler")
-		rw.callExpr(s.Call)
+		if ce, ok := rw.callExpr(s.Call).(*ast.CallExpr); ok {
+			s.Call = ce
+		}
 	case *ast.DeferStmt:
-		rw.callExpr(s.Call)
+		if ce, ok := rw.callExpr(s.Call).(*ast.CallExpr); ok {
+			s.Call = ce
+		}
 	case *ast.BlockStmt:
 		rw.block(s)
 	case *ast.IfStmt:
@@ -1380,7 +1535,15 @@ func (rw *rewriter) stmt(s ast.Stmt) ast.Stmt {
 	case *ast.SelectStmt:
 		rw.block(s.Body)
 	case *ast.CommClause:
-		s.Comm = rw.stmt(s.Comm)
+		if es, ok := s.Comm.(*ast.ExprStmt); ok {
+			// a receive used as a select case stays a channel operation
+			if rw.doneReceive(es.X) != nil {
+				rw.skip("select case <-ctx.Done(): not under the scheduler")
+			}
+			es.X = rw.read(es.X)
+		} else {
+			s.Comm = rw.stmt(s.Comm)
+		}
 		for i, st := range s.Body {
 			s.Body[i] = rw.stmt(st)
 		}
